@@ -613,6 +613,11 @@ func GetRecords(name string, typ recordtype.Type) []string {
 
 	ctx := storage.GetReadOnlyContext()
 	tokenID := []byte(tokenIDFromName(ctx, name))
+	if len(tokenID) != len(name) {
+		// records of a subdomain are held by the closest registered parent
+		// domain, it is the one that must not be expired
+		fragments = nil
+	}
 	_ = getFragmentedNameState(ctx, tokenID, fragments) // ensure not expired
 	return getRecordsByType(ctx, tokenID, name, typ)
 }
@@ -1098,6 +1103,11 @@ func resolve(ctx storage.Context, res []string, name string, typ recordtype.Type
 // elements of the domain name path: if empty, splits name on its own.
 func getAllRecords(ctx storage.Context, name string, fragments []string) iterator.Iterator {
 	tokenID := []byte(tokenIDFromName(ctx, name))
+	if len(tokenID) != len(name) {
+		// records of a subdomain are held by the closest registered parent
+		// domain, it is the one that must not be expired
+		fragments = nil
+	}
 	_ = getFragmentedNameState(ctx, tokenID, fragments) // ensure not expired
 	recordsKey := getRecordsKey(tokenID, name)
 	return storage.Find(ctx, recordsKey, storage.ValuesOnly|storage.DeserializeValues)
